@@ -270,8 +270,14 @@ func (m *scanModel) micro(st pe.Value, mode int, known []int, remaining int, las
 		}
 		for i := 0; i < stT.NumFields(); i++ {
 			if stT.Field(i).Name() == "dataSize" {
-				sv.F[i] = &pe.Sym{Expr: idx.Expr, Off: idx.Off + rem, T: stT.Field(i).Type()}
-				in.SetSymLen(dataName, &pe.Sym{Expr: idx.Expr, Off: idx.Off + rem, T: stT.Field(i).Type()})
+				size := idx.Off + rem
+				if mode == modeEOF {
+					// the input ended where this feed started (offset 0 of the normalised index), however
+					// far earlier calls of the tail rule have advanced the index since
+					size = 0
+				}
+				sv.F[i] = &pe.Sym{Expr: idx.Expr, Off: size, T: stT.Field(i).Type()}
+				in.SetSymLen(dataName, &pe.Sym{Expr: idx.Expr, Off: size, T: stT.Field(i).Type()})
 			}
 		}
 		for k, b := range known {
@@ -561,7 +567,9 @@ func (m *scanModel) feedEOF(st *implState) *stepResult {
 		switch mr.kind {
 		case "event":
 			res.Events = append(res.Events, mr.ev)
-			cur = m.resetIndex(mr.state)
+			// the index is not re-normalised between the calls made at end of input: how far the
+			// tail rule advances it is part of what is observed (positions are relative to "i")
+			cur = mr.state
 		case "end":
 			res.Kind = "end"
 			return res
